@@ -3,6 +3,7 @@ import g2
 from g2 import Crash
 
 PROPERTY = 'C10'
+THOROUGH_EXTRA = 40
 
 
 def _stores(tier):
@@ -90,7 +91,7 @@ def subharnesses(tier):
 
 
 def budget(tier, name):
-    return 400.0 if tier == 'quick' else 1500.0
+    return 400.0 if tier == 'quick' else 600.0
 
 
 def harness(S, spec):
